@@ -214,8 +214,47 @@ def resolve_op(store, op):
         op[ai] = ['o', j]
     if n in ('get', 'set', 'aget', 'aset'):
         x = store[i]
-        op.append({'n': int(x.vector_size), 'm': len(x.rows) if hasattr(x, 'rows') else 0})
+        sz = {'n': int(x.vector_size), 'm': len(x.rows) if hasattr(x, 'rows') else 0}
+        if not (isinstance(op[-1], dict) and op[-1].get('raw')):
+            # fit indices and value lengths to the object actually picked (the generator does not know its shape)
+            if n in ('get', 'set'):
+                op[2] = fit_index(op[2], sz['n'])
+                if n == 'set': op[3] = fit_value(op[3], index_count(op[2], sz['n']))
+            else:
+                ax = op[2]
+                if ax[0] == 'row':
+                    op[2] = ['row', fit_index(ax[1], sz['m'])]
+                else:
+                    mi, ni = fit_index(ax[1], sz['m']), fit_index(ax[2], sz['n'])
+                    if mi[0] in ('li', 'ni') and ni[0] in ('li', 'ni'):
+                        k = min(len(mi[1]), len(ni[1])); mi = [mi[0], mi[1][:k]]; ni = [ni[0], ni[1][:k]]
+                    op[2] = ['pair', mi, ni]
+        if isinstance(op[-1], dict): op = op[:-1]
+        op.append(sz)
     return op
+
+def cyc(l, k, fill):
+    l = list(l)
+    if not l: l = [fill]
+    return [l[j % len(l)] for j in range(k)]
+
+def fit_index(ix, size):
+    k = ix[0]
+    if size == 0: return ix
+    if k in ('i', 't'): return [k, ix[1] % size]
+    if k in ('li', 'ni'): return [k, [j % size for j in ix[1]]]
+    if k in ('m', 'nm'): return [k, cyc(ix[1], size, False)]
+    if k == 'sl':
+        a, b, c = ix[1], ix[2], ix[3]
+        return ['sl', None if a is None else min(a, size), None if b is None else min(b, size), c]
+    return ix
+
+def fit_value(v, cnt):
+    if cnt is None: return v
+    k = v[0]
+    if k in ('l', 'n') and len(v[1]) not in (cnt, 1): return [k, cyc(v[1], cnt, 0.0)]
+    if k in ('bl', 'bn') and len(v[1]) not in (cnt, 1): return [k, cyc(v[1], cnt, False)]
+    return v
 
 def exec_op(store, op):
     """run a resolved op on the real objects.  Returns (outcome, new object or None)."""
@@ -267,11 +306,13 @@ def exec_op(store, op):
 
 def run_history(case, observe_np=False):
     store = [build_obj(o) for o in case['objs']]
-    out = {'init': [snap(x) for x in store], 'ops': [], 'outs': [], 'aliased': None, 'unrep': None}
+    out = {'init': [snap(x) for x in store], 'ops': [], 'outs': [], 'aliased': None, 'unrep': None, 'np': [], 'frag': []}
     for raw in case['ops']:
         op = resolve_op(store, raw)
         if op is None: continue
         before = [snap(x) for x in store]
+        out['np'].append(np_eval(store, op))
+        out['frag'].append(in_fragment(store, op))
         try:
             o, new = exec_op(store, op)
         except AssertionError:
@@ -633,5 +674,271 @@ def small_scope(rng, tier):
                 cases.append({'objs': objs, 'ops': ops})
     return cases
 
-def oracle(case):
+# ------------------------------------------------------------------ NumPy on the dense images
+def dense_of(x):
+    a = x.to_array()
+    k = kind_of(x)
+    if k == 'v' and x.read_only: a.setflags(write=False)
+    if k == 'a' and x.rows and all(r.read_only for r in x.rows): a.setflags(write=False)
+    return a
+
+def np_arg(a, store):
+    if a[0] == 'o': return store[a[1]].to_array()
+    return build_arg(a, store)
+
+def np_obs(r):
+    """observation of a NumPy result"""
+    if isinstance(r, np.ndarray) and r.ndim >= 1:
+        if r.ndim == 1:
+            return ['l', [bool(x) for x in r]] if r.dtype == bool else ['v', [fr_json(frac(x)) for x in r]]
+        return (['b', [[bool(x) for x in row] for row in r]] if r.dtype == bool
+                else ['a', [[fr_json(frac(x)) for x in row] for row in r]])
     return None
+
+def np_eval(store, op):
+    """what NumPy does for this operation on the dense images of the current objects"""
+    n = op[0]
+    try:
+        if n == 'bin':
+            r = BINF[op[1]](dense_of(store[op[2]]), np_arg(op[3], store))
+        elif n == 'ibin':
+            x = dense_of(store[op[2]])
+            r = IBINF[op[1]](x, np_arg(op[3], store))
+            return ['upd', np_obs(r)]
+        elif n == 'rbin':
+            r = BINF[op[1]](float(op[2]), dense_of(store[op[3]]))
+        elif n == 'un':
+            x = dense_of(store[op[2]]); u = op[1]
+            if u == 'neg': r = -x
+            elif u == 'abs': r = abs(x)
+            elif u == 'invert': r = ~x
+            elif u == 'copy': r = x.copy()
+            elif u == 'clear':
+                x[...] = 0; return ['upd', np_obs(x)]
+            elif u == 'setro': return ['upd', np_obs(x)]
+            elif u == 'toarray': return np_value(x)
+        elif n in ('get', 'aget'):
+            x = dense_of(store[op[1]])
+            ix = build_index(op[2]) if n == 'get' else build_aindex(op[2])
+            if n == 'get' and (op[2] == ['o'] or op[2] == ['sl', None, None, None]): return ['self']
+            r = x[ix]
+            return np_value(r)
+        elif n in ('set', 'aset'):
+            x = dense_of(store[op[1]])
+            ix = build_index(op[2]) if n == 'set' else build_aindex(op[2])
+            x[ix] = np_arg(op[3], store)
+            return ['upd', np_obs(x)]
+        elif n == 'red':
+            r = getattr(dense_of(store[op[2]]), op[1])(axis=op[3], keepdims=op[4])
+        else:
+            return ['skip']
+    except Exception as ex:
+        return ['err', err_class(ex)]
+    if isinstance(r, np.ndarray) and r.ndim >= 1:
+        return ['new', np_obs(r)]
+    return np_value(r)
+
+def np_value(r):
+    if isinstance(r, np.ndarray) and r.ndim >= 1:
+        o = np_obs(r)
+        return {'v': ['dense', o[1]], 'l': ['denseb', o[1]], 'a': ['dense2', o[1]], 'b': ['denseb2', o[1]]}[o[0]]
+    if isinstance(r, (bool, np.bool_)) or (isinstance(r, np.ndarray) and r.dtype == bool): return ['bool', bool(r)]
+    return ['scal', fr_json(frac(r))]
+
+def in_fragment(store, op):
+    """operations covered by np_step of coq/C09/Dense.v: float vector target, vector / scalar / 1-d operands"""
+    n = op[0]
+    pos = {'bin': 2, 'ibin': 2, 'rbin': 3, 'un': 2, 'get': 1, 'set': 1, 'red': 2}.get(n)
+    if pos is None or kind_of(store[op[pos]]) != 'v': return False
+    if n in ('bin', 'ibin') and op[1] in ('and', 'xor', 'or'): return False
+    if n == 'bin' and op[1] in ('eq', 'ne') : pass
+    if n == 'un' and op[1] == 'invert': return False
+    ai = {'bin': 3, 'ibin': 3, 'set': 3}.get(n)
+    if ai is not None:
+        a = op[ai]
+        if a[0] == 'o': return kind_of(store[a[1]]) in ('v', 'l')
+        return a[0] in ('s', 'i', 'n0', 'sb', 'l', 'n', 'bl', 'bn')
+    return True
+
+def cdobj(o):
+    if o is None: return None
+    if o[0] == 'v': return f'(DV {qlist([F(x) for x in o[1]])} false)'
+    if o[0] == 'l': return f'(DL {cbits(o[1])})'
+    return None
+def cdoutcome(o):
+    k = o[0]
+    if k == 'skip': return 'DSkip'
+    if k == 'err': return f'(DErr {o[1]})' if not o[1].startswith('EUnknown') else '(DErr EInfeasible)'
+    if k in ('new', 'upd'):
+        d = cdobj(o[1])
+        return 'DSkip' if d is None else f'({"DNew" if k == "new" else "DUpd"} {d})'
+    if k == 'self': return 'DSelf'
+    if k == 'scal': return f'(DScal {q(F(o[1]))})'
+    if k == 'bool': return f'(DBool {cbool(o[1])})'
+    if k == 'dense': return f'(DDense {qlist([F(x) for x in o[1]])})'
+    if k == 'denseb': return f'(DDenseB {cbits(o[1])})'
+    return 'DSkip'
+def np_term(case, out):
+    outs = [cdoutcome(o) if f else 'DSkip' for o, f in zip(out['np'], out['frag'])]
+    return f'run_np_eqb {cbool(LEGACY)} {clist(case["objs"], cinit)} {clist(out["ops"], cop)} {clist(outs)}'
+
+# ------------------------------------------------------------------ direct oracle: the property itself on the implementation
+def fr(x): return F(x) if not isinstance(x, bool) else F(int(x))
+def flat(o):
+    """numeric content and shape of an observed object/value"""
+    k = o[0]
+    if k in ('v', 'l', 'dense', 'denseb'): return (len(o[1]),), [fr(x) if x is not None else F(0) for x in o[1]]
+    if k in ('a', 'b', 'dense2', 'denseb2'):
+        return (len(o[1]), len(o[1][0]) if o[1] else 0), [fr(x) if x is not None else F(0) for r in o[1] for x in r]
+    if k in ('scal', 'bool'): return (), [fr(o[1])]
+    raise ValueError(k)
+def close(a, b):
+    return len(a) == len(b) and all(abs(x - y) <= F(1, 10**9) * max(1, abs(x), abs(y)) for x, y in zip(a, b))
+
+def invariant(store):
+    """stored entries are exactly the non-zero elements, keys inside the size"""
+    for k, x in enumerate(store):
+        rows = x.rows if kind_of(x) in ('a', 'b') else [x]
+        for r in rows:
+            n = r.size
+            if kind_of(r) == 'v':
+                for i, v in r.dct.items():
+                    if not (isinstance(i, (int, np.integer)) and 0 <= i < n): return f'invariant: object {k} stores key {i!r} outside range({n})'
+                    if v == 0: return f'invariant: object {k} stores a zero at key {i}'
+            else:
+                if not isinstance(r.set, set): return f'invariant: object {k} keeps its true indices in a {type(r.set).__name__}, not a set'
+                for i in r.set:
+                    if not (isinstance(i, (int, np.integer)) and 0 <= i < n): return f'invariant: object {k} stores key {i!r} outside range({n})'
+    return None
+
+def opkind(store, op):
+    n = op[0]
+    pos = {'bin': 2, 'ibin': 2, 'rbin': 3, 'un': 2, 'get': 1, 'set': 1, 'red': 2, 'aget': 1, 'aset': 1}[n]
+    t = kind_of(store[op[pos]])
+    name = op[1] if isinstance(op[1], str) else ''
+    ai = {'bin': 3, 'ibin': 3, 'set': 3, 'aset': 3}.get(n)
+    ak = ''
+    if ai is not None:
+        a = op[ai]
+        ak = ('o-' + kind_of(store[a[1]]) + ('-self' if a[1] == op[pos] else '')) if a[0] == 'o' else a[0]
+    return n, name, t, ak, pos
+
+def oracle(case):
+    try:
+        store = [build_obj(o) for o in case['objs']]
+    except Exception as ex:
+        return f'construct: {type(ex).__name__}: {ex}'
+    msg = invariant(store)
+    if msg: return 'construct: ' + msg
+    for k, (x, o) in enumerate(zip(store, case['objs'])):
+        want = [fr(v) for v in (o[1] if o[0] in ('v', 'l') else [v for r in o[1] for v in r])]
+        if flat(snap(x))[1] != want: return f'construct: object {k} does not represent its input'
+    for raw in case['ops']:
+        op = resolve_op(store, raw)
+        if op is None: continue
+        n, name, t, ak, pos = opkind(store, op)
+        tag = f'{n}:{name}:{t}:{ak}'
+        ref = np_eval(store, op)
+        pre_dense = [x.to_array() for x in store]
+        before = [flat(snap(x)) for x in store]
+        ro_target = (t == 'v' and store[op[pos]].read_only) or (t == 'a' and store[op[pos]].rows and all(r.read_only for r in store[op[pos]].rows))
+        try:
+            o, new = exec_op(store, op)
+        except Exception as ex:
+            o, new = ['err', err_class(ex)], None
+        if new is not None:
+            ids = set(i for x in store for i in data_ids(x))
+            if any(i in ids for i in data_ids(new)): return f'{tag}: shared-data: the result shares its dict/set with an operand'
+            store.append(new)
+        msg = invariant(store)
+        if msg: return f'{tag}: {msg}'
+        after = [flat(snap(x)) for x in store]
+        mutator = n in ('ibin', 'set', 'aset') or (n == 'un' and op[1] in ('clear',))
+        # in-place operations change only the target; everything else changes nothing
+        for k in range(len(before)):
+            if after[k] != before[k] and not (mutator and k == op[pos] and o[0] != 'err'):
+                if o[0] == 'err' and k == op[pos]:
+                    if o[1] in CRASH: continue
+                    return f'{tag}: rejected-but-modified: raised {o[1]} after modifying the target'
+                return f'{tag}: frame: object {k} changed'
+        if ro_target and mutator and o[0] != 'err':
+            return f'{tag}: read-only: write to a read-only array accepted'
+        if ref[0] == 'skip': continue
+        if o[0] == 'err' and o[1] in ('ERuntime', 'EKey') or (o[0] == 'err' and o[1].startswith('EUnknown')):
+            return f'{tag}: raises {o[1]} (NumPy: {ref[0]})'
+        if o[0] == 'err' and ref[0] == 'err':
+            if o[1] in CRASH: return None if False else _stop(store)
+            continue
+        if ref[0] == 'err' and ref[1] == 'EType': continue        # NumPy's dtype rules for booleans (-, unary -, in-place /): no reference value
+        if o[0] == 'err':
+            if n == 'set' and op[2][0] in ('i', 't'): continue     # element = sequence: NumPy's own rule depends on the dtype
+            return f'{tag}: raises {o[1]} where NumPy returns a result'
+        if ref[0] == 'err':
+            if ref[1] == 'EZeroDiv':
+                with np.errstate(all='ignore'):
+                    loose = np_eval(store_before_dense, op) if False else None
+                return f'{tag}: {zero_class(pre_dense, op)}: returns normally where NumPy raises FloatingPointError'
+            return f'{tag}: returns normally where NumPy raises {ref[1]}'
+        # both returned: compare dense images
+        if o[0] == 'self' or ref[0] == 'self': continue
+        if o[0] == 'unit':
+            got = flat(snap(store[op[pos]]))
+            if n == 'un' and op[1] == 'setro': continue
+            want = flat(ref[1]) if ref[0] == 'upd' and ref[1] else None
+        elif o[0] == 'new':
+            got = flat(o[1]); want = flat(ref[1]) if ref[0] == 'new' and ref[1] else (flat(ref) if ref[0] in ('scal', 'bool', 'dense', 'denseb', 'dense2', 'denseb2') else None)
+        else:
+            got = flat(o); want = flat(ref) if ref[0] in ('scal', 'bool', 'dense', 'denseb', 'dense2', 'denseb2') else (flat(ref[1]) if ref[0] == 'new' and ref[1] else None)
+        if want is None: continue
+        def squeeze(sh):
+            sh = tuple(sh)
+            while len(sh) > 1 and sh[0] == 1: sh = sh[1:]
+            return () if sh == (1,) else sh
+        if squeeze(got[0]) != squeeze(want[0]):          # reduce_ndim drops leading axes of length 1 by design
+            if len(got[1]) == len(want[1]) == 0: continue
+            return f'{tag}: shape {got[0]} where NumPy gives {want[0]}'
+        if not close(got[1], want[1]):
+            return f'{tag}: values {[float(x) for x in got[1]][:8]} where NumPy gives {[float(x) for x in want[1]][:8]}'
+    return None
+
+def _stop(store):
+    return None
+
+def zero_class(pre_dense, op):
+    """x/0 with x != 0 somewhere ('nonzero/0') or only 0/0"""
+    n = op[0]
+    try:
+        with np.errstate(all='ignore'):
+            if n == 'rbin': r = float(op[2]) / pre_dense[op[3]].astype(float)
+            else:
+                a = op[3]
+                b = pre_dense[a[1]] if a[0] == 'o' else np.asarray(build_arg(a, []))
+                r = pre_dense[op[2]].astype(float) / np.asarray(b, dtype=float)
+        return 'nonzero/0' if np.isinf(r).any() else '0/0'
+    except Exception:
+        return '0/0'
+
+CLASSES = [
+    ('raises ERuntime', 'runtime-error'),
+    ('shared-data', 'shared-data'),
+    ('stores a zero', 'invariant-stored-zero'),
+    ('outside range', 'invariant-key-out-of-range'),
+    ('not a set', 'invariant-dict-as-set'),
+    ('rejected-but-modified', 'rejected-but-modified'),
+    ('read-only', 'read-only-write-accepted'),
+    ('frame', 'frame'),
+    ('nonzero/0', 'nonzero-over-zero-accepted'),
+    ('0/0', 'zero-over-zero-gives-zero'),
+]
+def finding_key(case, msg):
+    for pat, key in CLASSES:
+        if pat in msg: return 'C09:' + key
+    head = msg.split(': ')[0].split(':')
+    n = head[0]
+    if 'where NumPy raises EValue' in msg or 'where NumPy raises EIndex' in msg:
+        return 'C09:' + {'ibin': 'inplace-target-resized-or-shape-not-checked', 'set': 'setitem-shape-not-checked',
+                         'aset': 'setitem-shape-not-checked'}.get(n, 'shape-not-checked:' + n)
+    if 'where NumPy returns a result' in msg: return 'C09:broadcast-not-supported:' + n
+    if 'shape' in msg: return 'C09:result-shape:' + n
+    if 'values' in msg: return 'C09:values:' + ':'.join(head[:3])
+    return 'C09:' + ':'.join(head[:2])
